@@ -22,6 +22,8 @@ type zzSec struct {
 	failures int
 	handled  int
 	mayFail  bool
+	// failDelete: every Delete of the secondary store fails or succeeds by choice
+	failDelete bool
 }
 
 var zzErrSec = errors.New("secondary store failed")
@@ -49,6 +51,9 @@ func (c *zzSec) Set(key uint64, value uint64, cost int64, expire int64) error {
 func (c *zzSec) Delete(key uint64) error {
 	vfPrint("sec.Delete by thread", vfThreadID())
 	vfYield()
+	if c.failDelete && vfChoose("secDeleteFails", 2) == 1 {
+		return zzErrSec
+	}
 	delete(c.m, key)
 	return nil
 }
